@@ -179,6 +179,19 @@ def check(sc):
                                 if f is not None and f >= 2.5:
                                     exp = reduce_price(exp, f)
                             got = o["matched"][k][1]
+                            if len(exp_f) > 1 and abs(got - exp) > 1e-9:
+                                # several removals became visible in one delivered update (a filtering listener skipped
+                                # the updates in between): each is applied once, in an order the statement leaves open -
+                                # the 2dp rounding after each step makes the result depend on it
+                                import itertools
+
+                                for perm in itertools.permutations([f for _, f in exp_f if f is not None and f >= 2.5]):
+                                    e2 = old[1]
+                                    for f in perm:
+                                        e2 = reduce_price(e2, f)
+                                    if abs(got - e2) <= 1e-9:
+                                        exp = e2
+                                        break
                             if abs(got - exp) > 1e-9:
                                 kind = "not-reduced" if exp_f and got == old[1] else ("reduced-without-removal" if not exp_f else "wrong-reduction")
                                 raise Violation("reduction-factor", (kind, o["type"], o["side"]),
